@@ -127,7 +127,7 @@ def handle (toks : List String) : String :=
     | _, _, _, _, _, _, _, _, _ => "bad-arg"
   | op :: caps :: script :: helo :: host :: policy :: implicit :: usessl :: atype :: user :: pass :: debug :: logauth ::
       suser :: spass :: cnonce :: tls13 :: cbs :: crypto :: hmacs :: thenReset :: [] =>
-    if op != "dial" && op != "authfirst" then "bad-op" else
+    if op != "dial" && op != "authfirst" && op != "tlsauth" then "bad-op" else
     match decList caps, decList script, decBytes helo, decBytes host, decNat policy, decNat implicit, decNat usessl,
           decBytes atype, decBytes user, decBytes pass, decNat debug, decNat logauth with
     | some caps, some sc, some helo, some host, some pol, some imp, some ssl, some atyp, some user, some pass, some dbg, some la =>
@@ -152,10 +152,16 @@ def handle (toks : List String) : String :=
         let scramEnv : ScramEnv := { algorithm := [], user := su.head?, pass := sp.head?, cnonces := cn, tls13 := t13 != 0, tlsUnique := (cb.head?).getD [], exporter := (cb.drop 1).head?, crypto := crypto }
         let cfg : DialCfg := { helo := helo, host := host, policy := policy, implicitTLS := imp != 0, useSSL := ssl != 0, authType := atype, user := user, pass := pass, debug := dbg != 0, logAuthData := la != 0, hmacHex := hmacHex, scram := scramEnv }
         -- "authfirst": smtp.NewClient followed directly by Client.Auth (the implicit EHLO happens inside Auth)
+        -- "tlsauth": smtp.NewClient, Client.StartTLS (its result is ignored: a caller that carries on), Client.Auth, Client.Close
         let (c, e) := if op == "dial" then dial cfg acts caps
           else match newClient cfg acts caps with
             | (c, some e) => (c, some e)
-            | (c, none) => runMech cfg { c with debug := cfg.debug, logAuthData := cfg.logAuthData } atype
+            | (c, none) =>
+              let c := { c with debug := cfg.debug, logAuthData := cfg.logAuthData }
+              if op == "tlsauth" then
+                let r := runMech cfg c.startTLS.1 atype
+                (r.1.close, r.2)
+              else runMech cfg c atype
         -- optionally Client.Reset() on the established connection (traffic after the AUTH window)
         let (c, re) := if thenReset == "#1" && e.isNone then resetWith cfg.send c else (c, none)
         let logs := c.logs.map (fun r => (if r.c2s then sb "C " else sb ("S " ++ toString r.code ++ " ")) ++ r.text)
